@@ -197,7 +197,7 @@ def gen_omen(rng, alphabet=None, ngram=None, nlevels=None, max_len=None):
     ngram = ngram or rng.choice([2, 2, 3, 3, 4, 5])
     # besides plain letters: a base letter next to a stand-alone combining mark (NFD text), and two canonically equivalent code points (A-ring / ANGSTROM SIGN):
     # n-grams are windows of code points, nothing may compose or fold them
-    alphabet = alphabet or rng.choice(['ab', 'abc', 'a', 'abcd', 'xyя', 'ae\u0301', 'a\u00c5\u212b', 'e\u0301\u0308'])
+    alphabet = alphabet or rng.choice(['ab', 'abc', 'a', 'abcd', 'xyя', 'ae\u0301', 'a\u00c5\u212b', 'e\u0301\u0308', 'a%', '%s{', 'b\\%'])      # also the characters of format strings
     if max_len is None and rng.random() < 0.15:
         # long guesses: more lengths than there are levels (12-21); a one- or two-letter alphabet keeps the level sets small enough to enumerate
         if rng.random() < 0.7:
